@@ -315,6 +315,9 @@ func runViso(root string, c visoCase) (impl, oracle string) {
 		return "staterr", ""
 	}
 	total := st.Size()
+	if total < 0 {
+		return fmt.Sprintf("size=%d NEGATIVE-SIZE", total), ""
+	}
 	fmt.Fprintf(&sb, "size=%d ", total)
 	if c.full && total <= 3<<20 {
 		buf := dirtyBuf(int(total + 4096))
@@ -705,6 +708,63 @@ func visoStream(o *out, r *rng, trees int, opsPer int, big bool) {
 		if ps3 {
 			addPS3Game(r, t, dir, r.picks("BCES00104", "BLUS12345", "NPEB0", "ABCD", "X1234567890123456789012345678", "BCES00104", "AB", "", "X12345678901234567890123456789012345"))
 		}
+		visoRunTree(o, r, t, dir, ps3, opsPer, fmt.Sprintf("%d", ti))
+	}
+}
+
+// visoHuge: trees around the largest volume the format (and the server's int32 sector numbers) can
+// express: 2^31-1 sectors = 4 TiB. Sparse files; a tree that does not fit must be refused at open,
+// one that fits must be a correct image up to its last sector.
+func visoHuge(o *out, r *rng, n int) {
+	const maxSector = 1<<31 - 1
+	type hc struct {
+		name  string
+		sizes []int64
+	}
+	var cases []hc
+	// the first three are always run: a sum that wraps int32 although each file is below 4 TiB, and the
+	// two sizes on either side of the limit (metadata and small files of these trees: 77 sectors incl. the ~1025 extent
+	// records of the huge file in both hierarchies; reserve for padding: 64)
+	cases = append(cases, hc{"two-2.5TiB", []int64{5 << 39, 5 << 39}},
+		hc{"edge-141", []int64{(maxSector - 141) * 2048}}, hc{"edge-140", []int64{(maxSector - 140) * 2048}})
+	for _, k := range []int64{100, 136, 138, 139, 142, 143, 144, 146, 150, 200} {
+		cases = append(cases, hc{fmt.Sprintf("edge-%d", k), []int64{(maxSector - k) * 2048}})
+	}
+	cases = append(cases,
+		hc{"one-4TiB", []int64{1 << 42}}, hc{"one-4TiB+1", []int64{1<<42 + 1}}, hc{"one-5TiB", []int64{5 << 40}},
+		hc{"three-3TiB", []int64{3 << 40, 3 << 40, 3 << 40}},
+		hc{"8TiB", []int64{1 << 43}}, hc{"two-2TiB-fits", []int64{1<<41 - 1<<20, 1<<41 - 1<<20}})
+	for i := 0; i < n && len(cases) > 0; i++ {
+		j := 0
+		if i >= 3 {
+			j = r.intn(len(cases))
+		}
+		c := cases[j]
+		cases = append(cases[:j], cases[j+1:]...)
+		t := &tree{}
+		t.add(tnode{path: "/", kind: 'd', mtime: genMtime(r)})
+		t.add(tnode{path: "/h", kind: 'd', mtime: genMtime(r)})
+		t.add(tnode{path: "/h/a.bin", kind: 'f', size: 3000, seed: 7, mtime: genMtime(r)})
+		for k, sz := range c.sizes {
+			nd := tnode{path: fmt.Sprintf("/h/huge%d.bin", k), kind: 'f', size: sz, seed: sparseSeed, mtime: genMtime(r)}
+			for _, off := range []int64{0, 1<<32 - 50, sz - 100, sz / 2} {
+				d := make([]byte, 100)
+				for x := range d {
+					d[x] = byte(r.next())
+				}
+				nd.overlays = append(nd.overlays, overlay{off, d})
+			}
+			t.add(nd)
+		}
+		t.add(tnode{path: "/h/z.bin", kind: 'f', size: 2049, seed: 8, mtime: genMtime(r)})
+		o.count("huge:" + c.name)
+		visoRunTree(o, r, t, "/h", false, 14, "huge-"+c.name)
+	}
+}
+
+func visoRunTree(o *out, r *rng, t *tree, dir string, ps3 bool, opsPer int, key string) {
+	ti := key
+	{
 		withTempRoot(func(root string) {
 			if err := t.materialize(root); err != nil {
 				o.notes = append(o.notes, "materialize: "+err.Error())
@@ -728,7 +788,7 @@ func visoStream(o *out, r *rng, trees int, opsPer int, big bool) {
 			} else {
 				o.count("open-failed")
 			}
-			o.emit(visoLine(nodes, c), impl, oracle, fmt.Sprintf("%d", ti))
+			o.emit(visoLine(nodes, c), impl, oracle, ti)
 		})
 	}
 }
@@ -737,11 +797,13 @@ func init() {
 	streams["viso"] = func(o *out, r *rng, thorough bool) {
 		if thorough {
 			visoStream(o, r, 300, 60, true)
+			visoHuge(o, r, 18)
 			c18Wide(o, r, 24)
 		} else {
 			c18Wide(o, r, 4)
 			visoStream(o, r, 34, 25, false)
 			visoStream(o, r, 6, 25, true) // a few trees with sparse multi-GiB files (multi-extent records)
+			visoHuge(o, r, 6)
 		}
 	}
 	replayFns["viso"] = func(line string) (string, string) {
